@@ -169,7 +169,8 @@ func (r *Router) handleHTTPRequest(ctx *Context) {
 		ctx.Set(CTXCurrentRoutePath, path)
 
 		// append main handler to last
-		handlers = append(route.handlers, route.handler)
+		// copy: appending in place would write into the route's shared backing array
+		handlers = append(route.handlers[:len(route.handlers):len(route.handlers)], route.handler)
 	} else if len(allowed) > 0 { // method not allowed
 		if len(r.noAllowed) == 0 {
 			r.noAllowed = HandlersChain{internal405Handler}
@@ -188,7 +189,7 @@ func (r *Router) handleHTTPRequest(ctx *Context) {
 
 	// has global middleware handlers
 	if len(r.handlers) > 0 {
-		handlers = append(r.handlers, handlers...)
+		handlers = append(r.handlers[:len(r.handlers):len(r.handlers)], handlers...)
 	}
 
 	ctx.SetHandlers(handlers)
